@@ -22,7 +22,7 @@ def roots(tier, seed):
     ns = [1, 2] if tier == "quick" else [1, 2, 3]
     for n in ns:
         for pats in [("free",) * n, ("wide",) * n] + ([("fixed",) + ("wide",) * (n - 1)] if n > 1 else []):
-            for cons in ["none", "lin_le", "ball_le", "ball_eq", "lin_eq+nl_eq", "two_nl", "cubic_le", "cubic_eq"]:
+            for cons in ["none", "lin_le", "ball_le", "ball_eq", "lin_eq+nl_eq", "two_nl", "cubic_le", "cubic_eq", "lin+cubic"]:
                 for scale in [False, True]:
                     if scale and (pats[0] == "free" or cons in ("lin_le", "two_nl")):
                         continue
